@@ -16,7 +16,7 @@ OWNERS = {
 FIXTURE_DB = os.path.join(V.VERIF, "fixtures", "aggsender_v1.sqlite")
 
 
-def decorate(b, rng, claims=True, finality=False, storefaults=False, l2reorgs=False):
+def decorate(b, rng, claims=True, finality=False, storefaults=False, l2reorgs=False, l1random=False):
     """add what the model abstracts away: claims per block, position of the finalized pointer, storage faults"""
     steps = []
     cfg = dict(b["cfg"])
@@ -29,7 +29,7 @@ def decorate(b, rng, claims=True, finality=False, storefaults=False, l2reorgs=Fa
         # how the 5 L1 info leaves are spread over L1 blocks: several updates of the info tree can share a block
         cfg["l1shape"] = rng.choice([[1, 2, 3, 4, 5], [1, 2, 3, 4, 5], [1, 1, 2, 2, 3], [1, 2, 2, 2, 3], [1, 1, 1, 2, 2], [1, 2, 3, 3, 4]])
     nl1 = 5
-    if finality and rng.random() < 0.5:
+    if (finality or l1random) and rng.random() < 0.5:
         # another L1 history: which deposits exist at which info leaf, and which leaf each claim is made against
         hist = "".join(rng.choice("mo") for _ in range(rng.randrange(2, 8)))
         nl1 = len(hist)
@@ -52,7 +52,7 @@ def decorate(b, rng, claims=True, finality=False, storefaults=False, l2reorgs=Fa
             if rng.random() < 0.6:
                 cur += 1
         cfg["l1shape"] = blocks if rng.random() < 0.5 else list(range(1, nl1 + 1))
-    fin = rng.choice(list(range(1 if nl1 < 3 else 2, nl1 + 1))) if finality else 5
+    fin = rng.choice(list(range(1 if nl1 < 3 else 2, nl1 + 1))) if finality else max(5, nl1)
     if finality:
         steps.append(dict(a="finalize", fin=fin))
     for s in b["steps"]:
@@ -87,7 +87,7 @@ def decorate(b, rng, claims=True, finality=False, storefaults=False, l2reorgs=Fa
 
 
 def aggsender_check(prop, model_cfgs, gen_cfgs, quick_n, thorough_n, invs, claims=True, finality=False, storefaults=False, assumptions=(),
-                    counterexamples=(), l2reorgs=False):
+                    counterexamples=(), l2reorgs=False, l1random=False):
     res = V.Result(prop)
     sc = V.Scratch(prop)
     try:
@@ -117,7 +117,7 @@ def aggsender_check(prop, model_cfgs, gen_cfgs, quick_n, thorough_n, invs, claim
                 paths = V.drop_prefixes([[json.dumps(c["cfg"], sort_keys=True)] + c["steps"] for c in cases])
                 bs = [dict(cfg=json.loads(p[0]), steps=p[1:]) for p in paths]
                 gstats.append(dict(cfg=cfg, edges=len(cases), behaviours=len(bs), states=gst["distinct"]))
-                behs += [decorate(b, rng, claims, finality, storefaults, l2reorgs) for b in sample(bs, thorough_n if thorough else quick_n, rng)]
+                behs += [decorate(b, rng, claims, finality, storefaults, l2reorgs, l1random) for b in sample(bs, thorough_n if thorough else quick_n, rng)]
             behs = reg + behs
         else:
             behs = rb
